@@ -182,6 +182,76 @@ def make_case_factory(scn, scratch, counters=None):
                             out.append({"read": "to_root_key", "key": rk_want, "kind": "root_store_raises:" + type(e).__name__, "detail": "", "rel": "routed"})
             return out
 
+        def wild(rnd):
+            """operations the model has no opinion about (exactly at mount points, on ancestors of mount points), errors
+            ignored - afterwards only model-free structural facts are demanded: default-store content lying under a mount
+            prefix is untouched, every listed key is well formed, contained and listed once, and the composite listing is
+            the union of the raw contents of the parts."""
+            out = []
+            hidden_before = None
+            if dleaf is not None:
+                hidden_before = {k: (dleaf.get_bytes(k) if not dleaf.is_dir(k) else None) for k in sorted(dleaf.keys())
+                                 if owner(prefixes, k) is not None and k not in pinned}
+            targets = sorted(pinned) + [p + "/" + x for p in prefixes for x in ("x.txt", "d")] + ["o", "o.txt"]
+            done = []
+            for _ in range(6):
+                k = rnd.choice(targets)
+                kind = rnd.choice(["store_metadata", "makedir", "remove", "removedir", "removedir_recursive", "store"])
+                done.append([kind, k])
+                try:
+                    if kind == "store_metadata":
+                        mps.store_metadata(k, {"x_user": "wild"})
+                    elif kind == "makedir":
+                        mps.makedir(k)
+                    elif kind == "remove":
+                        mps.remove(k)
+                    elif kind == "removedir":
+                        mps.removedir(k)
+                    elif kind == "removedir_recursive":
+                        mps.removedir(k, recursive=True)
+                    else:
+                        mps.store(k, b"wild", {"x_user": "wild"})
+                except Exception:
+                    pass
+            if dleaf is not None:
+                hidden_after = {k: (dleaf.get_bytes(k) if not dleaf.is_dir(k) else None) for k in sorted(dleaf.keys())
+                                if owner(prefixes, k) is not None and k not in pinned}
+                if hidden_after != hidden_before:
+                    out.append({"read": "default_store_raw", "key": "", "kind": "shadowed_default_content_changed",
+                                "detail": "before %r after %r (operations %r)" % (sorted(hidden_before), sorted(hidden_after), done), "rel": "-"})
+            try:
+                listed = list(mps.keys())
+            except Exception as e:
+                out.append({"read": "keys", "key": "", "kind": "raises_after_wild_operations", "detail": "%r after %r" % (e, done), "rel": "-"})
+                return out
+            for k in listed:
+                if k in ("", None):
+                    continue
+                if k.endswith("/") or k.startswith("/") or "//" in k:
+                    out.append({"read": "keys", "key": k, "kind": "malformed_key_listed", "detail": "%r after %r" % (k, done), "rel": "-"})
+                elif listed.count(k) > 1:
+                    out.append({"read": "keys", "key": k, "kind": "duplicate", "detail": "%r listed %d times after %r" % (k, listed.count(k), done), "rel": "-"})
+            # union of the raw parts
+            want = set(pinned)
+            for j, lf in enumerate(leaves):
+                try:
+                    for k in lf.keys():
+                        rk = prefixes[j] if k in ("", None) else prefixes[j] + "/" + k
+                        if owner(prefixes, rk) == j:
+                            want.add(rk)
+                except Exception:
+                    pass
+            if dleaf is not None:
+                for k in dleaf.keys():
+                    if k not in ("", None) and owner(prefixes, k) is None:
+                        want.add(k)
+            got = set(k for k in listed if k not in ("", None) and not k.endswith("/"))
+            if got != want:
+                out.append({"read": "keys", "key": "", "kind": "listing_is_not_the_union_of_the_parts",
+                            "detail": "missing %r extra %r after %r" % (sorted(want - got)[:4], sorted(got - want)[:4], done), "rel": "-"})
+            return out[:3]
+
+        extra.wild = wild
         return built, view, extra
 
     return make_case
@@ -229,6 +299,23 @@ def run_shard(spec):
         mk = make_case_factory(scn, scratch, counters)
         label = "MountPointStore" + ("+default" if scn["default"] is not None else "-default")
         v, steps, reads = storecheck.explore_case(PROPERTY, label, mk, hist, uni)
+        if not v and scn["parts"]:
+            # wild phase on a fresh instance of the scenario brought to the end of the history
+            import random as _r
+            from lqv import storecfg as _sc
+
+            b2, m2, ex2 = mk()
+            try:
+                dd, _, _ = _sc.run_history(b2, hist, uni, model=m2, extra_check=None, check_purity=False)
+                if not dd:
+                    for disc in ex2.wild(_r.Random(repr(hist))):
+                        counters["wild_phases"] = counters.get("wild_phases", 0) + 1
+                        v.append({"sig": "%s|%s|after operations at mount points|%s|%s" % (PROPERTY, label, disc["read"], disc["kind"]),
+                                  "what": "%s: %s" % (disc["kind"], disc["detail"]),
+                                  "witness": {"label": label, "history": [SM.op_to_json(o) for o in hist], "wild": True}})
+                    counters["wild_phases"] = counters.get("wild_phases", 0) + 1
+            finally:
+                b2.close()
         for x in v:
             x["what"] = label_of(scn) + " " + x["what"]
         evaluations += steps
@@ -277,7 +364,7 @@ def replay(spec):
 def finalize(m, tier, seed):
     inc = []
     for k in ("tables.two_component_prefix", "tables.nested", "tables.hidden_default_content", "to_root_key_checks",
-              "reads_compared", "tables.0_mounts+default"):
+              "reads_compared", "tables.0_mounts+default", "wild_phases"):
         if not m["counters"].get(k):
             inc.append("coverage class %s empty" % k)
     return {"inconclusive": inc}
